@@ -86,6 +86,8 @@ fn main() {
         "shrink" => checks::shrink_cmd(&args),
         "specdump" => checks::specdump(&args),
         "bcdump" => checks::bcdump(&args),
+        "c17" => checks::c17(&args),
+        "c05" => checks::c05(&args),
         "c14" => props::c14(&args),
         "c15" => props::c15(&args),
         "c09" => props::c09(&args),
